@@ -146,11 +146,17 @@ pub struct TimerState {
     pub pos: AtomicUsize,
     pub last: AtomicU64,
     pub log: Mutex<Vec<u64>>,
+    /// the read with this index fails: the timer closure panics instead of returning (usize::MAX: never)
+    pub fault_at: AtomicUsize,
 }
 
 impl TimerState {
     pub fn read(&self) -> u64 {
         let i = self.pos.fetch_add(1, Ordering::SeqCst);
+        if i == self.fault_at.load(Ordering::SeqCst) {
+            self.fault_at.store(usize::MAX, Ordering::SeqCst);
+            panic!("scripted timer fault");
+        }
         let v = if i < self.script.len() {
             self.script[i]
         } else {
@@ -183,6 +189,7 @@ impl Clone for Cursor {
             pos: AtomicUsize::new(self.st.pos.load(Ordering::SeqCst)),
             last: AtomicU64::new(self.st.last.load(Ordering::SeqCst)),
             log: Mutex::new(Vec::new()),
+            fault_at: AtomicUsize::new(usize::MAX),
         });
         self.reg.lock().unwrap().push(st.clone());
         Cursor {
@@ -200,6 +207,7 @@ pub fn new_cursor(script: Vec<u64>, cont: Vec<u64>, reg: &Registry) -> Cursor {
         pos: AtomicUsize::new(0),
         last: AtomicU64::new(0),
         log: Mutex::new(Vec::new()),
+            fault_at: AtomicUsize::new(usize::MAX),
     });
     reg.lock().unwrap().push(st.clone());
     Cursor {
